@@ -427,19 +427,123 @@ fn explore(cx: &mut Ctx<'_>, server: &Path, g: &Path, h: &Path, m: Model, path: 
     Ok(())
 }
 
+#[derive(Serialize, Deserialize, Hash, Clone, Debug)]
+struct CloneCase {
+    /// server base as in `Case::base`
+    base: u8,
+    proto: u8,
+    /// clone with depth 1
+    shallow: bool,
+    /// `gix::create::Kind::Bare` instead of a repository with (never checked out) worktree
+    bare: bool,
+}
+
+/// gitoxide's clone (fetch only, no checkout) into `dst`
+fn gix_clone(url: &str, dst: &Path, c: &CloneCase) -> Result<(), String> {
+    fn chain(e: &dyn std::error::Error) -> String {
+        let mut msg = e.to_string();
+        let mut src = e.source();
+        while let Some(s) = src {
+            msg.push_str(&format!(" <- {s}"));
+            src = s.source();
+        }
+        msg
+    }
+    let kind = if c.bare { gix::create::Kind::Bare } else { gix::create::Kind::WithWorktree };
+    let mut prep = gix::clone::PrepareFetch::new(
+        url,
+        dst,
+        kind,
+        gix::create::Options::default(),
+        gix::open::Options::isolated().config_overrides([format!("protocol.version={}", c.proto), "protocol.file.allow=always".to_string()]),
+    )
+    .map_err(|e| format!("prepare clone: {}", chain(&e)))?;
+    if c.shallow {
+        prep = prep.with_shallow(gix::remote::fetch::Shallow::DepthAtRemote(1.try_into().expect("non-zero")));
+    }
+    prep.fetch_only(gix::progress::Discard, &AtomicBool::new(false)).map_err(|e| format!("fetch_only: {}", chain(&e)))?;
+    Ok(())
+}
+
+static CLONES: AtomicU64 = AtomicU64::new(0);
+
+fn clone_and_compare(fx: &Fixture, c: &CloneCase) -> Verdict {
+    let Some((base_dir, _)) = fx.bases.get(c.base as usize) else { vkit::machinery!("no base {}", c.base) };
+    let dir = scratch::Dir::new("c31clone");
+    let url = format!("file://{}", base_dir.display());
+    let here = format!("cloning base {} (protocol.version={}, depth1={}, bare={})", c.base, c.proto, c.shallow, c.bare);
+    // reference: a normal git clone without checkout — gitoxide configures `+refs/heads/*:refs/remotes/origin/*` for bare clones as well
+    let mut args = vec!["-c".to_string(), format!("protocol.version={}", c.proto), "clone".into(), "-q".into(), "--no-checkout".into()];
+    if c.shallow {
+        args.extend(["--depth=1".to_string(), "--no-single-branch".into()]);
+    }
+    args.extend([url.clone(), "h".into()]);
+    git::git(dir.path(), &args);
+    let h = dir.join("h/.git");
+    let gdst = dir.join("g");
+    match vkit::catch(|| gix_clone(&url, &gdst, c)) {
+        Err(p) => return vkit::bad("panic", format!("{p} {here}")),
+        Ok(Err(m)) => return vkit::bad("error", format!("gitoxide clone failed with `{m}` where git clone succeeds, {here}")),
+        Ok(Ok(())) => {}
+    }
+    CLONES.fetch_add(1, Ordering::Relaxed);
+    GIT_CALLS.fetch_add(6, Ordering::Relaxed);
+    let g = if c.bare { gdst.clone() } else { gdst.join(".git") };
+    let fsck = git::try_git(&g, &["fsck", "--connectivity-only"]);
+    let fsck_text = format!("{}\n{}", fsck.text(), fsck.err_text());
+    if !fsck.ok || fsck_text.contains("missing") || fsck_text.contains("broken") || fsck_text.contains("error") {
+        return vkit::bad("fsck", format!("git fsck --connectivity-only exits with {:?} after {here}: {}", fsck.code, fsck_text.trim()));
+    }
+    if c.shallow && c.proto != 2 && shallow_of(&g).is_empty() && !shallow_of(&h).is_empty() {
+        return vkit::bad(
+            "shallow-depth-ignored-v1",
+            format!("depth 1 requested, gitoxide received the complete history and wrote no shallow file, git has shallow commits {:?}, {here}", shallow_of(&h)),
+        );
+    }
+    let (got, want) = (refs_of(&g), refs_of(&h));
+    if got != want {
+        let diffs: Vec<String> = got
+            .keys()
+            .chain(want.keys())
+            .collect::<BTreeSet<_>>()
+            .into_iter()
+            .filter(|n| got.get(*n) != want.get(*n))
+            .map(|n| format!("{n}: gitoxide {:?}, git {:?}", got.get(n), want.get(n)))
+            .collect();
+        return vkit::bad("refs", format!("{} after {here}", diffs.join("; ")));
+    }
+    let head = |d: &Path| {
+        let o = git::try_git(d, &["symbolic-ref", "-q", "HEAD"]);
+        if o.ok { o.text() } else { format!("detached {}", git::try_git(d, &["rev-parse", "HEAD"]).text()) }
+    };
+    if head(&g) != head(&h) {
+        return vkit::bad("head", format!("HEAD is {:?}, git has {:?} after {here}", head(&g), head(&h)));
+    }
+    let mut shallow_g = shallow_of(&g);
+    if shallow_g != shallow_of(&h) {
+        shallow_g.retain(|id| git::try_git(&g, &["cat-file", "-e", id]).ok);
+    }
+    if shallow_g != shallow_of(&h) {
+        return vkit::bad("shallow", format!("shallow file {:?} but git has {:?} after {here}", shallow_of(&g), shallow_of(&h)));
+    }
+    ok(format!("clone/v{}/{}{}", c.proto, if shallow_of(&g).is_empty() { "complete" } else { "shallow" }, if c.bare { "/bare" } else { "" }))
+}
+
 pub fn run(run: &'static Run) {
     util::hermetic_env();
     run.rule(
         "server histories: from base 0 (a = 1 commit), base 1 (a = 2 commits, b = side commit, annotated tag on the root, lightweight tag on the tip) every sequence of \
          {Commit on a, Branch (create/advance b with an old-dated commit), DelBranch b, Rewind a (forced replacement of the tip / new root), TagLw (move lightweight tag), TagAnn (re-create annotated tag)} \
-         up to depth 2 (quick: base 1 at depth 1 for (follow-tags, v2) and (unforced+all-tags, v1), initial fetch only for (depth-1 shallow, v2) and (single-branch, v1); thorough: base 1 at depth 2 for all 4 clients x protocol 1 and 2, base 0 at depth 2 for all 4 clients with alternating protocol); shallow servers (bases 2/3 = bare --depth=1/--depth=2 clones of a 4-commit history) with the three clients that request no depth: quick initial fetch for 4 (base, client, protocol) combinations, thorough depth 1 for 2 bases x 3 clients x protocol 1 and 2; after the initial state and after EVERY operation the client fetches. Clients: `+refs/heads/*:refs/remotes/o/*` with tag following; `refs/heads/*:refs/remotes/o/*` (no force) with --tags; \
+         (quick: base 1 at depth 1 for all 4 clients x protocol 1 and 2, shallow servers (bases 2/3 = bare --depth=1/--depth=2 clones of a 4-commit history) initial fetch for the 3 depth-less clients x protocol 1 and 2; \
+         thorough: base 1 at depth 3 for (follow-tags, v2) and (unforced+all-tags, v2), at depth 2 for the other 6 client/protocol combinations, base 0 at depth 2 for all 4 clients with alternating protocol, shallow servers at depth 1 for 3 clients x 2 protocols); after the initial state and after EVERY operation the client fetches. Clients: `+refs/heads/*:refs/remotes/o/*` with tag following; `refs/heads/*:refs/remotes/o/*` (no force) with --tags; \
          single branch `+refs/heads/a:..` with --no-tags; all heads --no-tags with depth 1; protocol.version 1 and 2. \
-         a case = (base, client, protocol, first operation) and covers the whole subtree of continuations; non-trivial = every fetch in the subtree was compared with git fetch and at least one pack was received",
+         sub-check `clone` (both tiers): PrepareFetch::new(..).fetch_only() for bases 0-3 x protocol 1/2 x complete/depth-1 x bare/with-worktree kind, compared with `git clone --no-checkout [--depth=1 --no-single-branch]` (refs, HEAD, shallow file, fsck). a case = (base, client, protocol, first operation) and covers the whole subtree of continuations; non-trivial = every fetch in the subtree was compared with git fetch and at least one pack was received",
     );
     run.assume("git 2.39.5 `git fetch` (same config file, same protocol.version) on an identical copy of the client is the reference for refs and the shallow file; `git fsck --connectivity-only` decides completeness");
     run.assume("documented deviation tolerated: with tag following, gitoxide does not request annotated tags of commits it already has (Mode::ImplicitTagNotSentByRemote) — only when that mode is reported and the tag object is indeed absent");
     run.assume("shallow servers: the reference is `git fetch --update-shallow` (plain git fetch refuses refs that need a shallow update; gitoxide, like git clone, accepts them)");
     run.assume("the shallow file is compared after dropping entries of gitoxide for commits that do not exist in the client (extra v0/v1 advertisement entries); entries of existing commits must equal those of git");
+    run.assume("clone: gitoxide writes `+refs/heads/*:refs/remotes/origin/*` for bare clones too (it does not mirror heads like `git clone --bare`), so the git dir of `git clone --no-checkout` is the reference for both kinds; `--no-single-branch` because Shallow::DepthAtRemote does not narrow the refspec");
     run.assume("pruning, FETCH_HEAD, reflogs and refs/remotes/o/HEAD are outside the comparison (git fetch without --prune does not delete refs either)");
     run.budget_secs(run.pick(40.0, 570.0));
     let fx = fixture();
@@ -459,15 +563,24 @@ pub fn run(run: &'static Run) {
                 }
             };
             if run.quick() {
-                for (client, proto, depth) in [(0u8, 2u8, 1u8), (1, 1, 1), (3, 2, 0), (2, 1, 0)] {
-                    subtree(1, client, proto, depth);
+                for client in 0..CLIENTS.len() as u8 {
+                    for proto in [2u8, 1] {
+                        subtree(1, client, proto, 1);
+                    }
                 }
                 // shallow servers, clients that request no depth
-                for (base, client, proto) in [(2u8, 0u8, 1u8), (2, 0, 2), (3, 1, 1), (3, 2, 2)] {
-                    subtree(base, client, proto, 0);
+                for base in [2u8, 3] {
+                    for client in 0..3u8 {
+                        for proto in [1u8, 2] {
+                            subtree(base, client, proto, 0);
+                        }
+                    }
                 }
             } else {
-                for (client, proto) in [(0u8, 2u8), (1, 1), (3, 2), (2, 1), (0, 1), (1, 2), (3, 1), (2, 2)] {
+                for (client, proto) in [(0u8, 2u8), (1, 2)] {
+                    subtree(1, client, proto, 3);
+                }
+                for (client, proto) in [(0u8, 1u8), (1, 1), (3, 2), (2, 1), (3, 1), (2, 2)] {
                     subtree(1, client, proto, 2);
                 }
                 for client in 0..CLIENTS.len() as u8 {
@@ -505,6 +618,23 @@ pub fn run(run: &'static Run) {
             ok(format!("{}/v{}/{}", client.name, c.proto, kinds.join("+")))
         },
     );
+    run.sub_with(
+        "clone",
+        vkit::Opts::default().chunk(8).watchdog(600.0),
+        |emit| {
+            for base in 0..4u8 {
+                for proto in [1u8, 2] {
+                    for shallow in [false, true] {
+                        for bare in [true, false] {
+                            emit(CloneCase { base, proto, shallow, bare });
+                        }
+                    }
+                }
+            }
+        },
+        |c: &CloneCase| clone_and_compare(fx, c),
+    );
+    run.cov_add("clones_compared_with_git_clone", CLONES.load(Ordering::Relaxed));
     run.cov_add("oracle_calls_git", GIT_CALLS.load(Ordering::Relaxed));
     run.cov_add("fetches_compared_with_git_fetch", FETCHES.load(Ordering::Relaxed));
     run.cov_add("fetches_that_received_a_pack", PACKS.load(Ordering::Relaxed));
@@ -516,5 +646,6 @@ pub fn run(run: &'static Run) {
     run.require("some implicit (followed) tag was created by gitoxide", IMPLICIT_TAG_CREATED.load(Ordering::Relaxed) > 0);
     run.require("some update was rejected (non-fast-forward / tag clobber)", REJECTED.load(Ordering::Relaxed) > 0);
     run.require("some update was forced", FORCED.load(Ordering::Relaxed) > 0);
+    run.require("some clone was compared with git clone", CLONES.load(Ordering::Relaxed) > 0);
     run.require("some shallow fetch happened", SHALLOW_FETCHES.load(Ordering::Relaxed) > 0);
 }
